@@ -60,6 +60,27 @@ Section LABELS.
   Qed.
 End LABELS.
 
+(* Select with BOTH statements answered by the reference interpreter on the planner's own trees (the samples statement and
+   the labels request built from the fingerprints of its rows) is the function prom_select that prom_select_exact_series
+   is stated over (there the labels reply is the list reading fetch_rows) *)
+Definition prom_select_sql (re_match re_full : string -> string -> bool) (cluster : bool) (dbname : string) (h : hints)
+    (ms : list matcher) (db : database) : option (list out_series) :=
+  match prom_query_rows re_match re_full cluster dbname h ms db with
+  | Some rows =>
+    match eval_fetch re_match (labels_fetch cluster (fps_of rows) (h_start h) (h_end h)) (d_series db) with
+    | Some reply => Some (select_series (snd (querier_transpile re_full cluster dbname h ms)) rows reply)
+    | None => None
+    end
+  | None => None
+  end.
+Theorem prom_select_sql_eq re_match re_full cluster dbname h ms db :
+  prom_select_sql re_match re_full cluster dbname h ms db = prom_select re_match re_full cluster dbname h ms db.
+Proof.
+  unfold prom_select_sql, prom_select, day_from, day_to.
+  destruct (prom_query_rows re_match re_full cluster dbname h ms db) as [rows|]; [|reflexivity].
+  now rewrite eval_labels_fetch.
+Qed.
+
 Example labels_request_example :
   eval_fetch (fun _ _ => false) (labels_fetch false [41%N; 18446744073709551615%N] 1700000000000 1700003600000)
     [{| t_date := 19675; t_fp := 41; t_type := 2; t_labels := [("__name__", "up")] |};
